@@ -1,0 +1,41 @@
+//go:build verif
+
+// Verification hooks: exported wrappers around unexported functions.
+// Compiled only with the build tag "verif"; adds no behaviour.
+package cmd
+
+func VerifParseRuleId(arg string) (id string, fileName string, chainOffset uint8, err error) {
+	ruleValues.id = ""
+	ruleValues.fileName = ""
+	ruleValues.chainOffset = 0
+	err = parseRuleId(arg)
+	return ruleValues.id, ruleValues.fileName, ruleValues.chainOffset, err
+}
+
+func VerifFindRootDirectory(startPath string) (string, error) {
+	return findRootDirectory(startPath)
+}
+
+func VerifProcessLine(line []byte, indent int) ([]byte, int, error) {
+	return processLine(line, indent)
+}
+
+func VerifFormatEndOfFile(lines []string) []string {
+	return formatEndOfFile(lines)
+}
+
+func VerifCheckStandardHeader(lines []string) bool {
+	return checkStandardHeader(lines)
+}
+
+func VerifStandardHeader() string {
+	return regexAssemblyStandardHeader
+}
+
+func VerifFindUpperCase(lines []string, iFlag bool) (bool, string) {
+	return findUpperCaseCharacterClassOnIgnoreCaseFlag(lines, iFlag)
+}
+
+func VerifValidateSemver(version string) error {
+	return validateSemver(version)
+}
